@@ -34,21 +34,21 @@ type Conn struct {
 	CloseStep   int
 	OpenStep    int
 
-	Pkts      []WirePkt // complete packets parsed from C2B
-	parsed    int       // bytes of C2B covered by Pkts
-	ParseErr  error
-	WriteErrN int // writes that returned an error on this connection
-	credits   []creditEv
-	rdlSetCur int  // bytes handed out when the read deadline was last set
-	stalled   bool // a write timed out without progress: nothing may follow
+	Pkts           []WirePkt // complete packets parsed from C2B
+	parsed         int       // bytes of C2B covered by Pkts
+	ParseErr       error
+	WriteErrN      int // writes that returned an error on this connection
+	credits        []creditEv
+	rdlSetCur      int  // bytes handed out when the read deadline was last set
+	stalled        bool // a write timed out without progress: nothing may follow
 	WriteAfterFail bool
-	Sent      []SentPkt
-	HandStep  []int // per Sent entry: step at which the client had read it completely (0: not yet)
-	handIdx   int
-	ConnackStep int // step at which the first broker packet was read completely
-	OnWire    func(c *Conn, p *WirePkt)
-	Hostile   *HostileInj // hostile bytes were queued: the stream is no longer the broker model's
-	Stalled   bool        // the broker sends nothing more on this connection
+	Sent           []SentPkt
+	HandStep       []int // per Sent entry: step at which the client had read it completely (0: not yet)
+	handIdx        int
+	ConnackStep    int // step at which the first broker packet was read completely
+	OnWire         func(c *Conn, p *WirePkt)
+	Hostile        *HostileInj // hostile bytes were queued: the stream is no longer the broker model's
+	Stalled        bool        // the broker sends nothing more on this connection
 }
 
 // WirePkt is a complete client packet on the wire.
